@@ -25,6 +25,7 @@ The model is tied to the C++ by T1 (rule table) and the correspondence check K-C
 -/
 import SharkVerif.Lemmas.Remora
 import SharkVerif.Gen.RemoraRules
+import SharkVerif.Gen.RemoraOpt
 import Mathlib.Data.List.Nodup
 namespace SharkVerif.C01
 open SharkVerif.Remora
@@ -126,6 +127,22 @@ theorem rangeOpt_sound : (rangeOpt (R := R)).Sound where
 /-- composite rewrites of any depth by `rangeOpt` are denotation preserving -/
 theorem rangeOpt_run_sound (n : Nat) (e : VExp R) (h : e.WF) : ((rangeOpt (R := R)).run n).1 e ≈ᵥ e :=
   (optimize_sound rangeOpt rangeOpt_sound n).1 e h
+
+/-- the optimiser **generated from the rule table** (`Gen/RemoraOpt.lean`, regenerated on every
+run): all rules of the proxy, scalar-multiply and unary families whose recursive calls take
+sub-terms of the matched expression (65 of the 86 translated rules at this commit,
+`Rules.genOptRuleCount`). -/
+def genOpt : Optimizer R := ⟨Rules.genStepV, Rules.genStepM⟩
+
+theorem genOpt_sound : (genOpt (R := R)).Sound where
+  v := fun recV recM hV hM e hwf => Rules.genStepV_sound recV recM hV hM e hwf
+  m := fun recV recM hV hM e hwf => Rules.genStepM_sound recV recM hV hM e hwf
+
+/-- **every composite rewrite by the generated optimiser, to any depth, preserves the denotation** -/
+theorem genOpt_run_sound (n : Nat) :
+    (∀ e : VExp R, e.WF → ((genOpt (R := R)).run n).1 e ≈ᵥ e) ∧
+    (∀ m : MExp R, m.WF → ((genOpt (R := R)).run n).2 m ≈ₘ m) :=
+  optimize_sound genOpt genOpt_sound n
 
 end Equiv
 
@@ -580,6 +597,12 @@ example : ∃ (e : (Nat → Int) → Nat → Int),
 example : ((rangeOpt (R := Int)).run 3).1
       (.range (.scal (.add (.lit 4 fun i => (i : Int)) (.const 4 10)) 2) 1 3) =
     .scal (.add (.range (.lit 4 fun i => (i : Int)) 1 3) (.const 2 10)) 2 := by
+  rfl
+
+/-- `genOpt` really rewrites: `row(2*(u vᵀ) + C, 1)` is pushed through sum, scalar multiple and outer product -/
+example : ((genOpt (R := Int)).run 3).1
+      (.row (.add (.scal (.outer (.lit 2 fun i => (i : Int)) (.lit 3 fun j => (j : Int) + 1)) 2) (.const 2 3 5)) 1) =
+    .add (.scal (.scal (.lit 3 fun j => (j : Int) + 1) ((VExp.lit 2 fun i => (i : Int)).get 1)) 2) (.const 3 5) := by
   rfl
 
 /-- a well-formed instance for `rangeOpt_run_sound` -/
